@@ -466,7 +466,8 @@ func (p *sshFxpStatResponse) MarshalBinary() ([]byte, error) {
 var emptyFileStat = []any{uint32(0)}
 
 func (p *sshFxpOpenPacket) readonly() bool {
-	return !p.hasPflags(sshFxfWrite)
+	// Creating or truncating a file modifies the file system even when the file is opened for reading only.
+	return p.Pflags&(sshFxfWrite|sshFxfCreat|sshFxfTrunc) == 0
 }
 
 func (p *sshFxpOpenPacket) hasPflags(flags ...uint32) bool {
